@@ -142,21 +142,31 @@ Fixpoint mon_fail_at (m : mon) (t : list gev) (i : N) : option N :=
   end.
 
 (* ---------- client side (RFC 9114 5.2, 7.2.6) as a reference function ---------- *)
+Definition rfc_H3_REQUEST_CANCELLED : N := 268.  (* 0x010c *)
 
 Inductive cev :=
 | CGoaway (id : N)        (* a GOAWAY frame with this identifier arrived on the server's control stream *)
 | CDrive                  (* the client's connection driver ran *)
-| CRequest                (* the application tried to start a request *)
-| CDriveErr (code : N)    (* OUT: the driver ended with this connection error *)
+| CRequest                (* the application's send_request call ran (a new call, or the one waiting for a stream) *)
+| CStarve                 (* the transport has no stream credit left *)
+| CGrant (n : N)          (* the peer granted n more bidirectional streams *)
+| CDriveErr (code : N)    (* OUT: the driver ended with this connection error (returned AND the connection closed with it) *)
 | CDriveIdle              (* OUT: the driver is waiting for more *)
 | CReqClosing             (* OUT: request refused "peer is closing"; no stream was opened *)
-| CReqOpened (sid : N).   (* OUT: a request stream with this id was opened *)
+| CReqParked              (* OUT: the call waits for a stream *)
+| CReqCancelled (sid : N) (code : option N)
+                          (* OUT: request refused "peer is closing"; the stream obtained meanwhile was reset with this code
+                             and nothing was written on it *)
+| CReqOpened (sid : N).   (* OUT: a request was started: stream opened and HEADERS written *)
 
-Inductive cop := KGoaway (id : N) | KDrive | KRequest.
+Inductive cop := KGoaway (id : N) | KDrive | KRequest | KStarve | KGrant (n : N).
 
-(* reference client: [limit] = smallest identifier processed so far, [inbox] = frames not yet looked at *)
-Record rcl := { r_limit : option N; r_inbox : list N; r_failed : bool; r_next : N }.
-Definition rcl0 : rcl := {| r_limit := None; r_inbox := []; r_failed := false; r_next := 0 |}.
+(* reference client: [limit] = smallest identifier processed so far, [inbox] = frames not yet looked at,
+   [credit] = streams the transport lets us open, [parked] = a send_request call is waiting for a stream.
+   RFC 9114 5.2: no request is initiated once a GOAWAY has been processed - including by a call that
+   was already waiting for a stream when the GOAWAY was processed. *)
+Record rcl := { r_limit : option N; r_inbox : list N; r_failed : bool; r_next : N; r_credit : N; r_parked : bool }.
+Definition rcl0 : rcl := {| r_limit := None; r_inbox := []; r_failed := false; r_next := 0; r_credit := 100; r_parked := false |}.
 
 Fixpoint rfc_process (limit : option N) (inbox : list N) : option N * bool :=
   match inbox with
@@ -167,20 +177,36 @@ Fixpoint rfc_process (limit : option N) (inbox : list N) : option N * bool :=
       else rfc_process (Some id) r
   end.
 
+Definition rcl_set (s : rcl) (limit : option N) (inbox : list N) (failed : bool) : rcl :=
+  {| r_limit := limit; r_inbox := inbox; r_failed := failed; r_next := r_next s; r_credit := r_credit s; r_parked := r_parked s |}.
+Definition rcl_stream (s : rcl) (next credit : N) (parked : bool) : rcl :=
+  {| r_limit := r_limit s; r_inbox := r_inbox s; r_failed := r_failed s; r_next := next; r_credit := credit; r_parked := parked |}.
+
 Definition rfc_client_step (s : rcl) (o : cop) : list cev * rcl :=
   if r_failed s then ([], s) else
   match o with
-  | KGoaway id => ([CGoaway id], {| r_limit := r_limit s; r_inbox := r_inbox s ++ [id]; r_failed := false; r_next := r_next s |})
+  | KGoaway id => ([CGoaway id], rcl_set s (r_limit s) (r_inbox s ++ [id]) false)
   | KDrive =>
       let '(l, bad) := rfc_process (r_limit s) (r_inbox s) in
-      if bad then ([CDrive; CDriveErr rfc_H3_ID_ERROR], {| r_limit := l; r_inbox := []; r_failed := true; r_next := r_next s |})
-      else ([CDrive; CDriveIdle], {| r_limit := l; r_inbox := []; r_failed := false; r_next := r_next s |})
+      if bad then ([CDrive; CDriveErr rfc_H3_ID_ERROR], rcl_set s l [] true)
+      else ([CDrive; CDriveIdle], rcl_set s l [] false)
+  | KStarve => ([CStarve], rcl_stream s (r_next s) 0 (r_parked s))
+  | KGrant n => ([CGrant n], rcl_stream s (r_next s) (r_credit s + n) (r_parked s))
   | KRequest =>
-      match r_limit s with
-      | Some _ => ([CRequest; CReqClosing], s)
-      | None => ([CRequest; CReqOpened (r_next s)],
-                 {| r_limit := None; r_inbox := r_inbox s; r_failed := false; r_next := r_next s + 4 |})
-      end
+      if r_parked s then
+        (* the waiting call *)
+        if r_credit s =? 0 then ([CRequest; CReqParked], s)
+        else match r_limit s with
+             | Some _ => ([CRequest; CReqCancelled (r_next s) (Some rfc_H3_REQUEST_CANCELLED)],
+                          rcl_stream s (r_next s + 4) (r_credit s - 1) false)
+             | None => ([CRequest; CReqOpened (r_next s)], rcl_stream s (r_next s + 4) (r_credit s - 1) false)
+             end
+      else
+        match r_limit s with
+        | Some _ => ([CRequest; CReqClosing], s)
+        | None => if r_credit s =? 0 then ([CRequest; CReqParked], rcl_stream s (r_next s) 0 true)
+                  else ([CRequest; CReqOpened (r_next s)], rcl_stream s (r_next s + 4) (r_credit s - 1) false)
+        end
   end.
 
 Fixpoint rfc_client_run (s : rcl) (h : list cop) : list cev :=
